@@ -7,7 +7,8 @@
 (* upstream regression input.                                                 *)
 EXTENDS Naturals, Sequences, FiniteSets, TLC, Json
 
-CONSTANTS ParamRows, ResultRows, CRows, CResults, LuaRows, PyRows, VecRows, KindRows, KindResults, MaxFuncs, MaxParams
+CONSTANTS ParamRows, ResultRows, CRows, CResults, LuaRows, PyRows, VecRows, KindRows, KindResults,
+          TInt, TReal, TLogical, TChar, TStruct, MaxFuncs, MaxParams
 
 VARIABLES lib, done, kind
 
@@ -56,16 +57,23 @@ AddDefaults(i, n) ==
         lib.funcs[i].params[k] \in {"int_v", "double_v", "bool_v", "long_v"}
   /\ lib' = [lib EXCEPT !.funcs[i].ndef = n]
   /\ UNCHANGED done
+\* Fortran resolves a generic name by the arguments' types, kinds and ranks.  Two parameter lists are kept apart when
+\* they differ in length, or when at some position both parameters are scalars of different Fortran TYPES (integer,
+\* real, logical, character, type(pt)); kinds alone are not relied on (C_LONG and C_INT64_T are one kind here), and
+\* such lists are different C++ signatures as well.
+TypeClass(r) == CASE r \in TInt -> "integer" [] r \in TReal -> "real" [] r \in TLogical -> "logical"
+                  [] r \in TChar -> "character" [] r \in TStruct -> "type" [] OTHER -> "?"
+Apart(a, b) == IF Len(a) # Len(b) THEN TRUE
+               ELSE \E k \in 1..Len(a) : TypeClass(a[k]) # "?" /\ TypeClass(b[k]) # "?" /\ TypeClass(a[k]) # TypeClass(b[k])
 \* an overload of an existing function: same name, another parameter list, same kind of result
 AddOverload(i, ps) ==
   /\ ~done /\ lib.language = "c++" /\ i \in 1..Len(lib.funcs) /\ Len(lib.funcs) < MaxFuncs
   /\ (lib.opts.wrap_lua => LuaList(ps)) /\ (lib.opts.wrap_python => PyList(ps))
   /\ lib.funcs[i].kind = "plain" /\ lib.funcs[i].ndef = 0 /\ ps # lib.funcs[i].params /\ ~lib.funcs[i].tmpl
   /\ \A j \in 1..Len(lib.funcs) : (lib.funcs[j].kind = "overload" /\ lib.funcs[j].of = i) => lib.funcs[j].params # ps
-  \* Fortran resolves a generic name by the arguments' types, kinds and ranks only: keep every pair of
-  \* specifics distinguishable by the number of arguments (arrays hide their size argument, so they stay out)
-  /\ Len(ps) # Len(lib.funcs[i].params)
-  /\ \A j \in 1..Len(lib.funcs) : (lib.funcs[j].kind = "overload" /\ lib.funcs[j].of = i) => Len(lib.funcs[j].params) # Len(ps)
+  \* every pair of specifics stays distinguishable (arrays hide their size argument, so they stay out)
+  /\ Apart(ps, lib.funcs[i].params)
+  /\ \A j \in 1..Len(lib.funcs) : (lib.funcs[j].kind = "overload" /\ lib.funcs[j].of = i) => Apart(lib.funcs[j].params, ps)
   /\ \A k \in 1..Len(ps) : ps[k] \notin {"arr_in", "arr_n", "arr_out", "out_n"}
   /\ \A k \in 1..Len(lib.funcs[i].params) : lib.funcs[i].params[k] \notin {"arr_in", "arr_n", "arr_out", "out_n"}
   /\ lib' = [lib EXCEPT !.funcs = Append(@, [kind |-> "overload", of |-> i, result |-> lib.funcs[i].result, params |-> ps, ndef |-> 0, tmpl |-> FALSE, gen |-> FALSE])]
